@@ -16,7 +16,7 @@ import subprocess
 import sys
 import time
 
-REPO = "/repo"
+REPO = os.environ.get("VERIF_REPO", "/repo")
 ROOT = os.path.dirname(os.path.dirname(os.path.abspath(__file__)))
 
 FIXES = [
